@@ -64,7 +64,7 @@ PROPS = {
     'C07': dict(level='proof', groups=['parse_seg', 'parse'], kani=[], bounded=['segments', 'tokens:C07', 'scale:C07', 'faults'],
         explanation="Proved (Verus, all strings, every T): from_str == parse_post routes the text after the last '#' to decode_subpath and the text before the last '/' of the path to decode_namespace; these equal sub_fold / ns_fold of the pieces between raw '/'; lemma_c07_of_phases: for every string the two phases accept, the reported namespace / subpath is the '/'-join of the decoded non-skipped pieces and splitting it at '/' gives exactly those segments back -- none empty, none containing '/', subpath segments not '.' or '..' -- or it is absent; the hooks of the built-in type parameters and the generic tail of build() leave namespace and subpath untouched (frames). Bounded cross-checks on the compiled code accompany the proof.",
         trusted=['decode(): a single call into the percent-encoding crate; its contract dec (percent-decode + strict UTF-8) and "a non-empty piece decodes to a non-empty string" are assumed (A: bounded replay)', 'std trim_matches / split / rsplit_once / split_once contracts (A: bounded replay)', 'a user-written PurlShape may overwrite namespace / subpath in its hook: the statement is read for the built-in type parameters']),
-    'C08': dict(level='proof', groups=['lib_lower', 'pkgtype', 'builder', 'parse', 'c01'], kani=['package_type_names'], bounded=['pkgrules', 'lower', 'tokens:C08', 'scale:C08'] + A,
+    'C08': dict(level='proof', groups=['lib_lower', 'pkgtype', 'builder', 'parse', 'c01'], kani=['package_type_names'], bounded=['pkgrules', 'lower', 'comb', 'tokens:C08', 'scale:C08'] + A,
         explanation='THEOREMS (group c01): theorem_c08_agree -- for every string s and every value the typed parser hands out for s, a type-agnostic parse of the SAME string is accepted too and has the same namespace, version, qualifier pairs and subpath, the type text is the name of the package type, and the typed name is lower_seq (nuget) / pypi_norm (pypi) of / equal to (the other five) the type-agnostic name; a maven value has a significant namespace segment; theorem_c08_unknown -- a syntactically valid type whose lower-casing is none of the seven names is refused by the typed parser with UnsupportedType. Pieces: Proved for all strings and all seven variants (Verus): nuget name = Unicode lower-casing (lower_seq), pypi name = pypi_norm written from the statement, maven refused iff the namespace has no significant segment, every other field untouched (frame), parser and builder both end in build() which applies the hook once. Unicode tables validated exhaustively (A). Assumed: the phf / unicase lookup contract (a probe hits exactly the entry equal to it up to ASCII case), char::to_lowercase is the Unicode mapping named u_to_lower. The bounded suites remain as a cross-check on the compiled code (every scalar value, SCALE).'),
     'C09': dict(level='proof', groups=['builder', 'qual', 'pkgtype', 'purl', 'fmt', 'inverse', 'c01', 'ckfix'], kani=ESC, bounded=['builder', 'format:C09', 'preds', 'shapes', 'pkgrules', 'lower'] + A,
         explanation='THEOREM (group c01, theorem_c09_plain / theorem_c09_typed, on lemma_parse_canon_gen of group inverse): for ANY builder state (arbitrary field texts; qualifier list satisfying the invariant every verified mutator keeps) whose build() -- hook relation + build_post -- succeeded with value g, parse_post applied to canon_spec(g) allows only Ok values with the same type, name, version and qualifier pairs, the namespace after dropping empty segments (sig_ns) and the subpath after dropping the segments that are empty, . or .. (sig_sub); for maven the namespace keeps a significant segment. The other clauses of the statement are the contracts of the functions themselves. Pieces: Proved (Verus): every setter sets its field and leaves every other field unchanged (frames => override and commutation), with_qualifier accepts exactly valid keys with the whole-content postcondition of insert, build() succeeds / fails as stated (build_post), Display == canon_spec. ALSO proved (group inverse): parsing canon_spec of normalised parts returns those parts (lemma_parse_canon), of arbitrary parts the significant segments (lemma_parse_canon_gen). CROSS-CHECK (bounded, compiled code): the same for parts that are not normalised (insignificant namespace / subpath segments set through the builder) and end to end on the compiled code -- all call sequences of length <= 2 / 3 over a value universe, and every scalar value in every field.'),
